@@ -35,6 +35,7 @@ func runC05(c *Ctx) {
 	fsmApplyAdd(c, "R5", applyAdd)
 	c05Proposer(c)
 	fsmResponseChecked(c, "R6")
+	applyPathNoRecover(c, "R5")
 	c05Refresh(c)
 	c05Current(c)
 	// the store's batch write is one write (the version metadata, the tree mutations and the applied
@@ -53,6 +54,11 @@ func runC05(c *Ctx) {
 	c.Rule("R9", "a state transfer is loaded completely or reported as failed", 2)
 	streamEndOnlyOnEOF(c, "R9", c.P.MustMethod("storage/rocks", "RocksDBStore", "LoadSnapshot"))
 	streamReaderForwardsError(c, "R9")
+	transferRequest(c, "R9")
+	restoreAlwaysTransfers(c, "R9")
+	transferCallbackErrorPropagates(c, "R9")
+	// acknowledged snapshots carry the digest of their event: hashers are per use
+	hasherFactoriesAreFresh(c, "R6", []string{"consensus", "server", "cmd", "balloon", "client"})
 }
 
 func c05Counter(c *Ctx) {
